@@ -1,6 +1,7 @@
 package witness
 
 import (
+	"net"
 	"testing"
 
 	"github.com/gofiber/fiber/v3"
@@ -18,5 +19,21 @@ func TestF11_SecureDerivesFromScheme(t *testing.T) {
 	}
 	if !secure {
 		t.Fatalf("Scheme()==https but Secure()==false")
+	}
+}
+
+// F24: a single proxy address was recorded under its spelling in the configuration but looked up
+// under the canonical form of the peer address: "2001:DB8::1" never matched the peer 2001:db8::1.
+func TestF24_ProxyAddressSpelling(t *testing.T) {
+	for _, spelled := range []string{"2001:DB8::1", "2001:0db8::1", "2001:db8:0:0:0:0:0:1"} {
+		app := fiber.New(fiber.Config{TrustProxy: true, TrustProxyConfig: fiber.TrustProxyConfig{Proxies: []string{spelled}}})
+		var trusted bool
+		app.Get("/", func(c fiber.Ctx) error { trusted = c.IsProxyTrusted(); return nil })
+		rc := newRC("GET", "/")
+		rc.SetRemoteAddr(&net.TCPAddr{IP: net.ParseIP("2001:db8::1"), Port: 1234})
+		app.Handler()(rc)
+		if !trusted {
+			t.Errorf("Proxies: [%q] does not trust the peer 2001:db8::1", spelled)
+		}
 	}
 }
